@@ -75,7 +75,10 @@ def r_lints_record_owner(r, prog):
             srcs = sources_of(prog, f, x.args[1], depth=5)
             for fp, e in sorted(srcs):
                 key = '%s:%s' % ('/'.join(vs), fp)
-                if 'parser_scoped_identifier(' in e or 'get_scoped_identifier(' in e:
+                if re.search(r'parser_scoped_identifier\(parent\(|get_scoped_identifier\(parent\(', e):
+                    r.finding('lint-scope-is-container:%s:%s' % (key, _short(re.sub(r'\s+', '', e)[:80])), x.span,
+                              'the scope recorded for lint %s is the scoped identifier of the *parent* of the element (%s, in %s): an allow attribute on the element itself is not consulted' % ('/'.join(vs), e[:100], fp))
+                elif 'parser_scoped_identifier(' in e or 'get_scoped_identifier(' in e:
                     r.ok('%s scope = scoped identifier of the element (%s)' % ('/'.join(vs), fp), e[:120])
                 elif re.search(r'parser_scope\(|\.parser_scope|module_scope\(', e):
                     what = re.sub(r'\s+', '', e)[:80]
@@ -287,6 +290,20 @@ def r_every_lint_is_looked_up(r, prog):
     r.floor(2)
 
 
+def r_allow_repeatable(r, prog):
+    """`allow` may be written several times on one element or file (each naming some lints): declaring it non-repeatable turns a second
+    suppression into an *error* diagnostic - adding a suppression must never add a diagnostic."""
+    fs = [f for f in prog.fns.values() if re.match(r'^<slicec::grammar::attributes::allow::Allow as slicec::grammar::attributes::AttributeKind>::is_repeatable$', f.path)]
+    if len(fs) != 1:
+        raise AnchorMissing('<Allow as AttributeKind>::is_repeatable')
+    v = vexpr(fs[0], {'cp': {'l': 0}})
+    if v == '1':
+        r.ok('Allow::is_repeatable() is true')
+    else:
+        r.finding('allow-not-repeatable', fs[0].span, 'Allow::is_repeatable() returns %s: a second allow attribute on an element is reported as an error (AttributeIsNotRepeatable)' % v)
+    r.floor(1)
+
+
 def run(ctx):
     prog = ctx.prog
     ctx.run_rule('C13.1a', 'T1', 'Diagnostic.level written only by new and, with Allowed, inside the Lint arm of into_updated', levels.r_level_writers, prog)
@@ -294,6 +311,7 @@ def run(ctx):
     ctx.run_rule('C13.2', 'T3', 'every element-related lint records the scoped identifier of its element', r_lints_record_owner, prog)
     ctx.run_rule('C13.3', 'T6', 'declared case-insensitivity of --allow is implemented', r_cli_case_insensitive, prog)
     ctx.run_rule('C13.4', 'T1', 'suppressions are consulted only by into_updated, which only rewrites levels', r_non_interference, prog)
+    ctx.run_rule('C13.9', 'T6', 'allow is repeatable: a further suppression never adds a diagnostic', r_allow_repeatable, prog)
     ctx.run_rule('C13.8', 'T2', 'every lint is looked up: no return before the walk over the diagnostics', r_every_lint_is_looked_up, prog)
     ctx.run_rule('C13.6', 'T10', 'file-level allow is looked up by the full path of the lint\'s span', r_file_allow_lookup, prog)
     ctx.run_rule('C13.5', 'T5', 'contained elements inherit their parent\'s attributes', r_contained_inherit_attributes, prog)
